@@ -740,3 +740,110 @@ Proof.
   rewrite String.eqb_refl. destruct kb_conv_parts as (H1 & _). rewrite (proj2 (H1 k Hk)).
   cbn [snd]. now rewrite (kb_tables_agree k Hk).
 Qed.
+
+(* deprecated chewing_Configure = the named options / chewing_set_selKey, in the order of its body *)
+Lemma configure_is_named (p : config_data) (c : config) :
+  chewing_Configure p c =
+  fold_left (fun c (f : config -> config) => f c)
+    [ (fun c => snd (config_set_int (iopt_name OCandidatesPerPage) (cd_cand_per_page p) c));
+      (fun c => snd (config_set_int (iopt_name OAutoCommitThreshold) (cd_max_chi_symbol_len p) c));
+      set_selKey (Some (cd_sel_key p)) c_MAX_SELKEY;
+      (fun c => snd (config_set_int (iopt_name OUserPhraseAddDirection) (cd_add_phrase_forward p) c));
+      (fun c => snd (config_set_int (iopt_name OSpaceIsSelectKey) (cd_space_as_selection p) c));
+      (fun c => snd (config_set_int (iopt_name OEscClearAllBuffer) (cd_esc_clean_all_buf p) c));
+      (fun c => snd (config_set_int (iopt_name OAutoShiftCursor) (cd_auto_shift_cur p) c));
+      (fun c => snd (config_set_int (iopt_name OEasySymbolInput) (cd_easy_symbol_input p) c));
+      (fun c => snd (config_set_int (iopt_name OPhraseChoiceRearward) (cd_phrase_choice_rearward p) c)) ] c.
+Proof. reflexivity. Qed.
+
+(* ------------------------------------------------------------------ T13: no history leaves the documented ranges *)
+
+Definition opts_wf (o : options) : Prop :=
+  c_MIN_SELKEY <= candidates_per_page o <= c_MAX_SELKEY /\
+  c_MIN_CHI_SYMBOL_LEN <= auto_commit_threshold o <= c_MAX_CHI_SYMBOL_LEN /\
+  (language_mode o < 2)%N /\ (character_form o < 2)%N /\ (user_phrase_add_dir o < 2)%N /\
+  (conversion_engine o < 3)%N.
+
+Lemma default_options_wf : opts_wf default_options.
+Proof. unfold opts_wf. cbn. repeat split; try discriminate; reflexivity. Qed.
+
+Lemma N_lt_2_cases (d : N) : (d < 2)%N -> d = 0%N \/ d = 1%N.
+Proof. lia. Qed.
+Lemma N_lt_3_cases (d : N) : (d < 3)%N -> d = 0%N \/ d = 1%N \/ d = 2%N.
+Proof. lia. Qed.
+
+Lemma get_iopt_in_range (o : iopt) (op : options) : opts_wf op -> in_range o (get_iopt o op).
+Proof.
+  intros (H1 & H2 & H3 & H4 & H5 & H6). unfold in_range.
+  destruct o; cbn [get_iopt doc_lo doc_hi];
+    try (match goal with |- context [b2z ?b] => destruct b; cbv; split; discriminate end).
+  - apply N_lt_2_cases in H5 as [-> | ->]; cbv; split; discriminate.
+  - change c_MIN_SELKEY with 1 in *; change c_MAX_SELKEY with 10 in *. rewrite as_c_int_small; lia.
+  - apply N_lt_2_cases in H3 as [-> | ->]; cbv; split; discriminate.
+  - change c_MIN_CHI_SYMBOL_LEN with 0 in *; change c_MAX_CHI_SYMBOL_LEN with 39 in *. rewrite as_c_int_small; lia.
+  - apply N_lt_2_cases in H4 as [-> | ->]; cbv; split; discriminate.
+  - apply N_lt_3_cases in H6 as [-> | [-> | ->]]; cbv; split; discriminate.
+Qed.
+
+Lemma apply_iopt_wf (o : iopt) (v : Z) (op op' : options) (eng eng' : N) :
+  0 <= v -> opts_wf op -> apply_iopt o v op eng = Some (op', eng') -> opts_wf op'.
+Proof.
+  intros Hv (H1 & H2 & H3 & H4 & H5 & H6).
+  destruct o;
+    cbv [apply_iopt bool_arm existsb ensure_bool_values assocZ orb
+         set_int_enum_user_phrase_add_direction set_int_enum_language_mode set_int_enum_character_form
+         set_int_engine set_int_reject_candidates_per_page set_int_reject_auto_commit_threshold negb andb];
+    bdestr; intros E; inversion E; subst; unfold opts_wf; cbn;
+    change c_MIN_SELKEY with 1 in *; change c_MAX_SELKEY with 10 in *;
+    change c_MIN_CHI_SYMBOL_LEN with 0 in *; change c_MAX_CHI_SYMBOL_LEN with 39 in *;
+    repeat split; try assumption; try lia; try reflexivity.
+Qed.
+
+Lemma set_int_wf (name : string) (v : Z) (c : config) :
+  opts_wf (opts c) -> opts_wf (opts (snd (config_set_int name v c))).
+Proof.
+  intros H. unfold config_set_int.
+  destruct (set_int_global_reject v) eqn:Eg; [exact H|].
+  assert (Hv : 0 <= v).
+  { destruct (Z.lt_ge_cases v 0) as [Hlt|Hge]; [|exact Hge]. apply global_reject_spec in Hlt. congruence. }
+  destruct (parse_iopt name) as [o|]; [|exact H].
+  destruct (apply_iopt o v (opts c) (engine_installed c)) as [[op' eng']|] eqn:E; [|exact H].
+  change set_int_calls_set_editor_options with true. cbn. exact (apply_iopt_wf _ _ _ _ _ _ Hv H E).
+Qed.
+
+Lemma step_wf (o : op) (c : config) : opts_wf (opts c) -> opts_wf (opts (snd (step o c))).
+Proof.
+  intros H. destruct o; cbn [step snd].
+  - now apply set_int_wf.
+  - rewrite legacy_set_is_named. now apply set_int_wf.
+  - unfold config_set_str. destruct (String.eqb name name_keyboard_type).
+    + destruct (kb_parse value); exact H.
+    + destruct (String.eqb name name_selection_keys); [destruct (sel_keys_acceptable value)|]; exact H.
+  - exact H.
+  - unfold set_selKey. destruct keys; [destruct (len =? 10)|]; exact H.
+  - rewrite configure_is_named. cbn [fold_left].
+    repeat match goal with
+    | |- opts_wf (opts (snd (config_set_int _ _ _))) => apply set_int_wf
+    | |- opts_wf (opts (set_selKey ?k ?l ?x)) =>
+        change (opts (set_selKey k l x)) with (opts x)
+    end; try exact H.
+    all: unfold set_selKey; cbn [Z.eqb c_MAX_SELKEY Pos.eqb with_sel_keys opts];
+      repeat apply set_int_wf; exact H.
+  - destruct H as ([H1 H1'] & [H2 H2'] & H3 & H4 & H5 & H6).
+    unfold editor_activity. destruct toggle_lang, toggle_form; unfold opts_wf; cbn;
+      repeat match goal with |- context [N.eqb ?a ?b] => destruct (N.eqb a b) end;
+      repeat split; try assumption; reflexivity.
+Qed.
+
+Lemma run_wf (ops : list op) (c : config) : opts_wf (opts c) -> opts_wf (opts (run ops c)).
+Proof.
+  revert c. induction ops as [|o ops IH]; intros c H; [exact H|].
+  cbn [run fold_left]. apply IH. now apply step_wf.
+Qed.
+
+(* after ANY history every integer option reads a value of its documented range *)
+Lemma options_always_in_range (ops : list op) (o : iopt) :
+  in_range o (config_get_int (iopt_name o) (run ops init_config)).
+Proof.
+  unfold config_get_int. rewrite parse_iopt_name. apply get_iopt_in_range, run_wf. exact default_options_wf.
+Qed.
